@@ -1,6 +1,7 @@
 package gojq
 
 import (
+	"sync"
 	"encoding/json"
 	"math"
 	"math/big"
@@ -316,6 +317,18 @@ func H_C03_arrays() {
 		r2 := funcOpAdd(nil, spare, []any{y}).([]any)
 		vassert(len(r1) == len(a)+1 && r1[len(a)].(int) == x, "a sum is not changed by a later sum of the same left operand")
 		vassert(len(r2) == len(a)+1 && r2[len(a)].(int) == y, "array + array appends the right operand")
+		// add/0 over arrays: the same independence for the sum of a list whose first element has spare capacity
+		s1 := funcAdd([]any{spare, []any{x}})
+		s2 := funcAdd([]any{spare, []any{y}, []any{x}})
+		if a1, ok := s1.([]any); ok {
+			vassert(len(a1) == len(a)+1 && a1[len(a)].(int) == x, "add of arrays is not changed by a later add that starts from the same array")
+		} else {
+			vassert(false, "add of arrays is an array")
+		}
+		if a2, ok := s2.([]any); ok {
+			vassert(len(a2) == len(a)+2 && a2[len(a)].(int) == y && a2[len(a)+1].(int) == x, "add of arrays concatenates in order")
+		}
+		vassert(len(spare[:cap(spare)]) == len(a)+4 && spare[:cap(spare)][len(a)] == nil, "the first array's spare capacity is not written")
 		vassert(funcOpAdd(nil, a, nil) != nil && hIdentical(funcOpAdd(nil, nil, a), snap), "null is the identity of +")
 		vassert(funcContains(r, b).(bool), "a + b contains b")
 	case 7:
@@ -615,5 +628,28 @@ func H_C03_numconv() {
 	vassume(mx <= 1<<40)
 	k := clampIndex(x, mn, mx)
 	vassert(mn <= k && k <= mx, "clampIndex stays within its bounds")
+	vreach("end")
+}
+
+// H_C03_regexcache: a regex builtin's value is a function of (subject, pattern, flags):
+// with one cache shared by all calls (as in a compiled query) every call yields what it
+// yields with a cache of its own, whatever was compiled before — in particular for pairs
+// whose pattern+flags texts coincide when glued together.
+func H_C03_regexcache() {
+	pairs := [][2]any{{"h", "i"}, {"hi", nil}, {"a", "g"}, {"ag", nil}, {"x", "gi"}, {"xg", "i"}, {"xgi", nil}, {"", "g"}, {"g", nil}, {"g", ""}, {".", "m"}, {".m", nil}}
+	subj := []string{"Hi", "xag XG", "a\nb.m", "g"}[nondetChoice(4)]
+	p1, p2 := pairs[nondetChoice(len(pairs))], pairs[nondetChoice(len(pairs))]
+	testing := nondetBool()
+	var shared sync.Map
+	funcMatch(subj, p1[0], p1[1], testing, &shared)
+	got := funcMatch(subj, p2[0], p2[1], testing, &shared)
+	var own sync.Map
+	want := funcMatch(subj, p2[0], p2[1], testing, &own)
+	_, e1 := got.(error)
+	_, e2 := want.(error)
+	vassert(e1 == e2, "a regex call fails exactly when it fails with a cache of its own")
+	if !e1 && !e2 {
+		vassert(hIdentical(got, want), "a regex call yields what it yields with a cache of its own")
+	}
 	vreach("end")
 }
